@@ -9,7 +9,9 @@
 //! (Model/Integrity with the executable MD5 / SHA-256 / lookup3) answers the same lines.
 //! O: a mutation inside the protected region is rejected, or the logical content returned is the
 //! base artifact's; a validating read returns only bytes whose MD5 is the requested key and a
-//! failed validation leaves the key in no layer.
+//! failed validation leaves the key in no layer. V1: an input whose LAST `Checksum: ` line is
+//! well-formed is accepted only with exactly that line's digits, which are SHA-256 of all bytes
+//! before the line (own SHA-256) — whatever the protected bytes contain.
 use bytes::Bytes;
 use cascette_cache::config::{DiskCacheConfig, MemoryCacheConfig, MultiLayerCacheConfig};
 use cascette_cache::disk_cache::DiskCache;
@@ -382,6 +384,29 @@ fn stored_ranges(kind: &str, d: &[u8]) -> Vec<(usize, usize)> {
     }
 }
 
+/// The documented rule of the V1 epilogue, restated independently of the crate: the LAST
+/// `Checksum: ` in the input starts the checksum line; the line is well-formed iff what follows up
+/// to the next `\n` (or the end of the input), less one trailing `\r`, is exactly 64 ASCII hex
+/// digits. Returns (position of that last occurrence, the 64 digits when well-formed).
+fn v1_last_line(d: &[u8]) -> Option<(usize, Option<&[u8]>)> {
+    let p = d.windows(10).rposition(|w| w == b"Checksum: ")?;
+    let rest = &d[p + 10..];
+    let mut line = match rest.iter().position(|b| *b == b'\n') {
+        Some(i) => &rest[..i],
+        None => rest,
+    };
+    if line.last() == Some(&b'\r') {
+        line = &line[..line.len() - 1];
+    }
+    let ok = line.len() == 64 && line.iter().all(u8::is_ascii_hexdigit);
+    Some((p, if ok { Some(line) } else { None }))
+}
+
+/// positions of every `Checksum: ` in the input
+fn v1_occurrences(d: &[u8]) -> Vec<usize> {
+    (0..d.len().saturating_sub(9)).filter(|i| &d[*i..*i + 10] == b"Checksum: ").collect()
+}
+
 fn in_ranges(r: &[(usize, usize)], p: usize) -> bool {
     r.iter().any(|(lo, hi)| *lo <= p && p < *hi)
 }
@@ -488,6 +513,48 @@ impl Interp {
                 "seg" if matches!(m, Mutation::None) && e.accepted && e.aux.contains('0') => {
                     s.oracle_fail("load-ignores-local-header-checksums", &format!("SegmentHeader::from_bytes returned bucket headers that fail validate_checksums (validity {})", e.aux), &replay);
                 }
+                // "the LAST `Checksum: ` line governs and covers everything before it" on the
+                // implementation alone: an input whose last `Checksum: ` line is well-formed may
+                // only be accepted after THAT line's 64 digits were compared with SHA-256 of all
+                // bytes before it — whatever the protected bytes themselves contain (earlier
+                // occurrences of the text `Checksum: `, well-formed or not)
+                "v1" if e.accepted => {
+                    if let Some((p, Some(c))) = v1_last_line(d) {
+                        let occ = v1_occurrences(d);
+                        let shape = format!("{} occurrence(s) of `Checksum: ` at {:?}, the last one (at {p}) is a well-formed line", occ.len(), occ);
+                        let used = e.follow.as_ref().map(|f| f.1.clone()).unwrap_or_default();
+                        let altered = self.base_eval.as_ref().is_some_and(|b| b.accepted && b.content != e.content);
+                        let mut what = if altered { "ALTERED data is returned as good".to_string() } else { "no corruption of the protected bytes can be noticed".to_string() };
+                        let mut replay = replay.clone();
+                        if matches!(m, Mutation::None) && (e.aux == "unchecked" || used != hex(c)) {
+                            // name a failing input in the property's own terms: the first single-bit
+                            // corruption of the bytes before the line that comes back as good data
+                            for q in 0..p.min(8192) {
+                                let mut d2 = d.to_vec();
+                                d2[q] ^= 1;
+                                let e2 = self.eval(&d2);
+                                if e2.accepted && e2.content != e.content {
+                                    what = format!("e.g. `flip {}` (byte {q} {:?} -> {:?}, checksum line untouched) returns ALTERED data as good", q * 8, char::from(d[q]), char::from(d2[q]));
+                                    replay.push(format!("flip {}", q * 8));
+                                    replay.push("v1ck".into());
+                                    break;
+                                }
+                            }
+                        }
+                        if e.aux == "unchecked" {
+                            s.oracle_fail("v1-wellformed-checksum-line-ignored", &format!("accepted UNCHECKED (V1MimeResponse.checksum = None) although the input ends in a well-formed Checksum line: {what}; {shape}"), &replay);
+                            return;
+                        }
+                        if used != hex(c) {
+                            s.oracle_fail("v1-last-checksum-line-not-used", &format!("accepted after a check against `{}`, which is not the text of the last Checksum line `{}`: {what}; {shape}", String::from_utf8_lossy(&unhex(&used).unwrap_or_default()), String::from_utf8_lossy(c)), &replay);
+                            return;
+                        }
+                        if hex(&sha256(&d[..p])).as_bytes() != c {
+                            s.oracle_fail("v1-checked-digest-mismatch", &format!("accepted as checked although SHA-256 of the {p} bytes before the last Checksum line is not the stated digest (the comparison does not cover the whole protected region / the whole digest); {shape}"), &replay);
+                            return;
+                        }
+                    }
+                }
                 _ => {}
             }
         }
@@ -575,7 +642,18 @@ impl Interp {
                     if e.aux == "unchecked" {
                         s.oracle_fail("v1-checksum-line-lost-unchecked", "response whose Checksum line was cut off or damaged is parsed without any check and returns altered data", &replay);
                     } else {
-                        s.oracle_fail("v1-corruption-accepted", "altered data returned although a checksum was verified", &replay);
+                        // the mutation destroyed the response's own checksum line and an EARLIER
+                        // well-formed `Checksum: ` line of the protected bytes (unchanged by the
+                        // mutation, valid for its own prefix) has become the last one
+                        let earlier = match (m, v1_last_line(&self.base), v1_last_line(d)) {
+                            (Mutation::At(_) | Mutation::Trunc(_), Some((pb, Some(_))), Some((pd, Some(cd)))) => pd < pb && self.base.get(pd..pd + 74) == Some(&d[pd..pd + 74]) && hex(&sha256(&d[..pd])).as_bytes() == cd,
+                            _ => false,
+                        };
+                        if earlier {
+                            s.oracle_fail("v1-checksum-line-lost-earlier-line-governs", "the response's own Checksum line was cut off or damaged; an earlier well-formed Checksum line inside the protected bytes became the last one, validates for its own prefix, and the truncated data is returned as checked", &replay);
+                        } else {
+                            s.oracle_fail("v1-corruption-accepted", "altered data returned although a checksum was verified", &replay);
+                        }
                     }
                 }
             }
@@ -902,6 +980,128 @@ fn gen_v1(rng: &mut Rng, shape: u64) -> Vec<u8> {
     msg
 }
 
+/// an occurrence of the text `Checksum: ` INSIDE the checksummed part of a V1 response
+#[derive(Clone, Copy, PartialEq, Debug)]
+enum Occ {
+    /// `Checksum: see epilogue line` (free text)
+    Text,
+    /// `Checksum: ` and nothing else
+    Empty,
+    Hex63,
+    Hex65,
+    /// 64 random lower-case hex digits: a well-formed line when it ends its line (wrong digest)
+    Hex64,
+    Hex64Upper,
+    Zero64,
+    /// 64 hex digits that ARE the SHA-256 of everything before the occurrence (a nested, signed
+    /// response): a well-formed line that validates for its own prefix
+    ValidForPrefix,
+}
+
+#[derive(Clone, Copy, PartialEq, Debug)]
+enum Place {
+    /// value of a top-level MIME header
+    TopHeader,
+    /// own line in the multipart preamble (plain shape: first body line)
+    Preamble,
+    /// value of a header of the data part (plain shape: a `## ` comment line)
+    PartHeader,
+    /// own line between the BPSV rows (line start)
+    RowStart,
+    /// last column of a BPSV row, the occurrence ends the row (mid-line, rest of line = the text)
+    NoteCol,
+    /// inside a free-text column, more text and another column follow on the same line
+    NoteColTail,
+    /// own line after the closing boundary, more epilogue text follows
+    Epilogue,
+    /// immediately in front of the real checksum line, no line break between
+    Adjacent,
+}
+
+struct V1x {
+    multipart: bool,
+    occs: Vec<(Place, Occ)>,
+    /// line end of the real checksum line (`""` = the input ends after the 64 digits)
+    eol: &'static str,
+}
+
+const OCCS: [Occ; 8] = [Occ::Text, Occ::Empty, Occ::Hex63, Occ::Hex65, Occ::Hex64, Occ::Hex64Upper, Occ::Zero64, Occ::ValidForPrefix];
+const PLACES: [Place; 8] = [Place::TopHeader, Place::Preamble, Place::PartHeader, Place::RowStart, Place::NoteCol, Place::NoteColTail, Place::Epilogue, Place::Adjacent];
+
+fn hexdigits(rng: &mut Rng, n: usize) -> String {
+    (0..n).map(|_| char::from(b"0123456789abcdef"[rng.below(16) as usize])).collect()
+}
+
+/// V1 response with a valid checksum epilogue whose protected bytes contain `Checksum: ` at the
+/// given places; returns the bytes and the positions of the interior occurrences
+fn gen_v1x(rng: &mut Rng, x: &V1x) -> (Vec<u8>, Vec<usize>) {
+    let mut m: Vec<u8> = vec![];
+    let mut at: Vec<usize> = vec![];
+    fn emit(m: &mut Vec<u8>, at: &mut Vec<usize>, rng: &mut Rng, x: &V1x, place: Place, pre: &dyn Fn(&mut Rng) -> String, post: &str) -> usize {
+        let mut k = 0;
+        for (p, o) in &x.occs {
+            if *p != place {
+                continue;
+            }
+            m.extend_from_slice(pre(rng).as_bytes());
+            at.push(m.len());
+            let t = match o {
+                Occ::Text => "Checksum: see epilogue line".to_string(),
+                Occ::Empty => "Checksum: ".to_string(),
+                Occ::Hex63 => format!("Checksum: {}", hexdigits(rng, 63)),
+                Occ::Hex65 => format!("Checksum: {}", hexdigits(rng, 65)),
+                Occ::Hex64 => format!("Checksum: {}", hexdigits(rng, 64)),
+                Occ::Hex64Upper => format!("Checksum: {}", hexdigits(rng, 64).to_uppercase()),
+                Occ::Zero64 => format!("Checksum: {}", "0".repeat(64)),
+                Occ::ValidForPrefix => format!("Checksum: {}", hex(&sha256(m))),
+            };
+            m.extend_from_slice(t.as_bytes());
+            m.extend_from_slice(post.as_bytes());
+            k += 1;
+        }
+        k
+    }
+    let fixed = |t: &'static str| move |_: &mut Rng| t.to_string();
+    let row = |rng: &mut Rng| format!("{}|{}|{}|", rng.pick(&["us", "eu", "kr", "cn"]), hex(&rng.bytes(16)), rng.below(100_000));
+    let bnd = format!("bnd{}", rng.below(100_000));
+    if x.multipart {
+        m.extend_from_slice(b"MIME-Version: 1.0\r\n");
+        emit(&mut m, &mut at, rng, x, Place::TopHeader, &fixed("X-Ribbit-Note: "), "\r\n");
+        m.extend_from_slice(format!("Content-Type: multipart/alternative; boundary=\"{bnd}\"\r\n\r\n").as_bytes());
+        emit(&mut m, &mut at, rng, x, Place::Preamble, &fixed(""), "\r\n");
+        m.extend_from_slice(format!("--{bnd}\r\nContent-Type: text/plain\r\nContent-Disposition: version\r\n").as_bytes());
+        emit(&mut m, &mut at, rng, x, Place::PartHeader, &fixed("X-Note: "), "\r\n");
+        m.extend_from_slice(b"\r\n");
+    } else {
+        m.extend_from_slice(b"Content-Type: text/plain\r\n");
+        emit(&mut m, &mut at, rng, x, Place::TopHeader, &fixed("X-Ribbit-Note: "), "\r\n");
+        m.extend_from_slice(b"\r\n");
+        emit(&mut m, &mut at, rng, x, Place::Preamble, &fixed(""), "\r\n");
+    }
+    m.extend_from_slice(b"Region!STRING:0|BuildConfig!HEX:16|BuildId!DEC:4|Note!STRING:0\r\n## seqn = 12345\r\n");
+    if !x.multipart {
+        emit(&mut m, &mut at, rng, x, Place::PartHeader, &fixed("## note = "), "\r\n");
+    }
+    m.extend_from_slice(format!("{}-\r\n", row(rng)).as_bytes());
+    emit(&mut m, &mut at, rng, x, Place::RowStart, &fixed(""), "\r\n");
+    emit(&mut m, &mut at, rng, x, Place::NoteCol, &row, "\r\n");
+    emit(&mut m, &mut at, rng, x, Place::NoteColTail, &|rng: &mut Rng| format!("{}see ", row(rng)), " (superseded)|x\r\n");
+    // rows AFTER the occurrences: the bytes between an interior occurrence and the real line carry data
+    for _ in 0..rng.range(1, 2) {
+        m.extend_from_slice(format!("{}-\r\n", row(rng)).as_bytes());
+    }
+    if x.multipart {
+        m.extend_from_slice(format!("\r\n--{bnd}--\r\n").as_bytes());
+    }
+    if emit(&mut m, &mut at, rng, x, Place::Epilogue, &fixed(""), "\r\n") > 0 {
+        m.extend_from_slice(b"-- end of response --\r\n");
+    }
+    emit(&mut m, &mut at, rng, x, Place::Adjacent, &fixed(""), "");
+    let ck = hex(&sha256(&m));
+    m.extend_from_slice(format!("Checksum: {ck}{}", x.eol).as_bytes());
+    (m, at)
+}
+
 // ---------------------------------------------------------------- mutation schedules
 
 struct Plan {
@@ -913,6 +1113,8 @@ struct Plan {
     exts: usize,
     /// every byte value at every position (only tiny artifacts)
     all_subs: bool,
+    /// explicit truncation points (structure boundaries of the artifact)
+    truncs_at: Vec<usize>,
 }
 
 fn mutate_case(s: &mut Session, it: &mut Interp, rng: &mut Rng, begin: String, plan: &Plan, must_accept: bool) {
@@ -986,6 +1188,11 @@ fn mutate_case(s: &mut Session, it: &mut Interp, rng: &mut Rng, begin: String, p
             }
         };
         it.exec(s, &format!("trunc {k}"));
+    }
+    for k in &plan.truncs_at {
+        if *k <= n {
+            it.exec(s, &format!("trunc {k}"));
+        }
     }
     for i in 0..plan.exts {
         let p = match i {
@@ -1090,37 +1297,37 @@ fn main() {
     // ---- LRU checkpoint files: every byte is protected; always exhaustive
     for (n, ver) in [(0usize, 1u16), (1, 1), (3, 0), (q(6, 20), 1)] {
         let d = gen_lru(&mut rng, n, ver);
-        let plan = Plan { exhaustive: vec![(0, d.len())], sampled_flips: 0, subs: q(40, 400), truncs: q(12, 60), exts: q(10, 60), all_subs: false };
+        let plan = Plan { exhaustive: vec![(0, d.len())], sampled_flips: 0, subs: q(40, 400), truncs: q(12, 60), exts: q(10, 60), all_subs: false, truncs_at: vec![] };
         mutate_case(&mut s, &mut it, &mut rng, format!("begin lru {}", hex(&d)), &plan, true);
     }
     // ---- local headers: 30 bytes, every base offset class; exhaustive flips, thorough: every byte value
     for base in [0usize, 30, 61, 90, 1_000_003] {
         let h = LocalHeader::new(rng.bytes(16).try_into().unwrap(), rng.below(1 << 31) as u32, base);
         let d = h.to_bytes().to_vec();
-        let plan = Plan { exhaustive: vec![(0, 30)], sampled_flips: 0, subs: q(60, 0), truncs: 4, exts: 4, all_subs: th };
+        let plan = Plan { exhaustive: vec![(0, 30)], sampled_flips: 0, subs: q(60, 0), truncs: 4, exts: 4, all_subs: th, truncs_at: vec![] };
         mutate_case(&mut s, &mut it, &mut rng, format!("begin lhdr {base} {}", hex(&d)), &plan, true);
     }
     // ---- segment header block (16 local headers, the load path)
     for _ in 0..q(1, 3) {
         let d = SegmentHeader::generate(rng.below(1023) as u16, &rng.bytes(16).try_into().unwrap()).to_bytes().to_vec();
-        let plan = Plan { exhaustive: if th { vec![(0, 480)] } else { vec![(0, 30), (450, 480)] }, sampled_flips: q(150, 0), subs: q(40, 300), truncs: 6, exts: 4, all_subs: false };
+        let plan = Plan { exhaustive: if th { vec![(0, 480)] } else { vec![(0, 30), (450, 480)] }, sampled_flips: q(150, 0), subs: q(40, 300), truncs: 6, exts: 4, all_subs: false, truncs_at: vec![] };
         mutate_case(&mut s, &mut it, &mut rng, format!("begin seg {}", hex(&d)), &plan, true);
     }
     // ---- update sections
     for n in [1usize, 5, 21, 23] {
         let d = gen_upd(&mut rng, n);
         let used = n.min(21) * 24;
-        let plan = Plan { exhaustive: if th { vec![(0, d.len().min(1024))] } else { vec![(0, 24), (used.saturating_sub(24), used)] }, sampled_flips: q(120, 0), subs: q(40, 400), truncs: q(6, 20), exts: q(4, 20), all_subs: false };
+        let plan = Plan { exhaustive: if th { vec![(0, d.len().min(1024))] } else { vec![(0, 24), (used.saturating_sub(24), used)] }, sampled_flips: q(120, 0), subs: q(40, 400), truncs: q(6, 20), exts: q(4, 20), all_subs: false, truncs_at: vec![] };
         mutate_case(&mut s, &mut it, &mut rng, format!("begin upd {}", hex(&d)), &plan, true);
     }
     // ---- archive index: the footer is always flipped exhaustively (incl. the unprotected TOC hash)
     for (ks, ob, n) in [(16u8, 4u8, 5usize), (16, 5, 1), (9, 4, 40), (16, 6, 3), (16, 4, 0), (7, 4, 2)] {
         let d = gen_aidx(&mut rng, ks, ob, n);
         let len = d.len();
-        let plan = Plan { exhaustive: vec![(len.saturating_sub(28), len)], sampled_flips: q(40, 600), subs: q(60, 600), truncs: q(16, 60), exts: q(12, 60), all_subs: false };
+        let plan = Plan { exhaustive: vec![(len.saturating_sub(28), len)], sampled_flips: q(40, 600), subs: q(60, 600), truncs: q(16, 60), exts: q(12, 60), all_subs: false, truncs_at: vec![] };
         mutate_case(&mut s, &mut it, &mut rng, format!("begin aidx {}", hex(&d)), &plan, true);
         if n > 0 && (ks, ob) != (9, 4) {
-            let plan = Plan { exhaustive: vec![(len.saturating_sub(28), len)], sampled_flips: q(10, 100), subs: q(20, 200), truncs: q(8, 30), exts: q(6, 30), all_subs: false };
+            let plan = Plan { exhaustive: vec![(len.saturating_sub(28), len)], sampled_flips: q(10, 100), subs: q(20, 200), truncs: q(8, 30), exts: q(6, 30), all_subs: false, truncs_at: vec![] };
             mutate_case(&mut s, &mut it, &mut rng, format!("begin aidxc {}", hex(&d)), &plan, true);
         }
     }
@@ -1130,8 +1337,54 @@ fn main() {
         let len = d.len();
         // shape 2 carries an upper-case checksum: accepted by extract_checksum, never equal to the
         // lower-case digest text, so the base itself is (correctly) rejected
-        let plan = Plan { exhaustive: if th { vec![(0, len)] } else { vec![(len.saturating_sub(80), len)] }, sampled_flips: q(100, 0), subs: q(40, 300), truncs: q(30, 120), exts: q(12, 60), all_subs: false };
+        let plan = Plan { exhaustive: if th { vec![(0, len)] } else { vec![(len.saturating_sub(80), len)] }, sampled_flips: q(100, 0), subs: q(40, 300), truncs: q(30, 120), exts: q(12, 60), all_subs: false, truncs_at: vec![] };
         mutate_case(&mut s, &mut it, &mut rng, format!("begin v1 {}", hex(&d)), &plan, shape != 2);
+    }
+    // ---- V1 responses whose PROTECTED bytes contain the text `Checksum: ` (1..n interior
+    // occurrences: free text / empty / 63, 64, 65 digits / upper case / all zero / a nested line
+    // that is valid for its own prefix; in a header value, at a line start, mid-line at the end of a
+    // row, mid-line followed by more text, in the MIME preamble / epilogue, glued to the real line):
+    // the LAST line governs, every corruption of the bytes before it must still be rejected
+    {
+        use Occ::*;
+        use Place::*;
+        let mut specs = vec![
+            V1x { multipart: true, occs: vec![(NoteColTail, Text)], eol: "\r\n" },
+            V1x { multipart: true, occs: vec![(RowStart, Hex64)], eol: "\r\n" },
+            V1x { multipart: false, occs: vec![(NoteCol, Hex64)], eol: "\n" },
+            V1x { multipart: true, occs: vec![(TopHeader, Hex63), (PartHeader, Hex65)], eol: "\r\n" },
+            V1x { multipart: true, occs: vec![(Epilogue, ValidForPrefix)], eol: "\r\n" },
+            V1x { multipart: true, occs: vec![(RowStart, ValidForPrefix)], eol: "\r\n" },
+            V1x { multipart: false, occs: vec![(RowStart, Empty), (NoteCol, Hex64Upper), (RowStart, Zero64)], eol: "" },
+            V1x { multipart: true, occs: vec![(Adjacent, Empty)], eol: "\n" },
+            V1x { multipart: true, occs: vec![(Preamble, Hex64), (NoteCol, Text), (Epilogue, Hex64)], eol: "\r\n" },
+        ];
+        for _ in 0..q(4, 24) {
+            let n = rng.range(1, 4) as usize;
+            let occs = (0..n).map(|_| (*rng.pick(&PLACES), *rng.pick(&OCCS))).collect();
+            specs.push(V1x { multipart: rng.chance(2, 3), occs, eol: *rng.pick(&["\r\n", "\r\n", "\n", ""]) });
+        }
+        for x in &specs {
+            let (d, at) = gen_v1x(&mut rng, x);
+            let len = d.len();
+            let last = d.windows(10).rposition(|w| w == b"Checksum: ").unwrap_or(0);
+            s.tally(&format!("v1x:occurrences={}", at.len()));
+            for (p, o) in &x.occs {
+                s.tally(&format!("v1x:{p:?}:{o:?}"));
+            }
+            // always exhaustive: every interior occurrence of the prefix (and its neighbours), the
+            // real prefix, the first and last digits; truncations at every structure boundary
+            let mut ex: Vec<(usize, usize)> = at.iter().map(|p| (p.saturating_sub(1), p + 12)).collect();
+            ex.push((last.saturating_sub(2), last + 12));
+            ex.push((len.saturating_sub(4), len));
+            let mut cuts: Vec<usize> = vec![last, last + 10, last + 73, last + 74];
+            for p in &at {
+                let eol = d[*p..].iter().position(|b| *b == b'\n').map_or(len, |i| p + i + 1);
+                cuts.extend([*p, p + 10, eol.saturating_sub(1), eol]);
+            }
+            let plan = Plan { exhaustive: if th { vec![(0, len)] } else { ex }, sampled_flips: q(60, 0), subs: q(30, 300), truncs: q(12, 60), exts: q(8, 40), all_subs: false, truncs_at: cuts };
+            mutate_case(&mut s, &mut it, &mut rng, format!("begin v1 {}", hex(&d)), &plan, true);
+        }
     }
     // ---- encoding tables (1 KiB pages): exhaustive over everything after the header in thorough
     for small in [true, false] {
@@ -1143,13 +1396,14 @@ fn main() {
         if th && small {
             ex = vec![(22, len)];
         }
-        let plan = Plan { exhaustive: ex, sampled_flips: q(150, 1500), subs: q(40, 400), truncs: q(10, 40), exts: q(8, 40), all_subs: false };
+        let plan = Plan { exhaustive: ex, sampled_flips: q(150, 1500), subs: q(40, 400), truncs: q(10, 40), exts: q(8, 40), all_subs: false, truncs_at: vec![] };
         mutate_case(&mut s, &mut it, &mut rng, format!("begin enc {}", hex(&d)), &plan, true);
     }
-    // header bytes 0..9 (magic, version, hash sizes, page-size fields): unprotected, compared by K only
+    // header bytes 0..22 (magic, version, hash sizes, page sizes, page COUNTS, flags, ESpec size):
+    // unprotected, compared by K only (the counts/sizes reach the data_size guard of fix a1e7c2a)
     {
         let d = gen_enc(&mut rng, true);
-        let plan = Plan { exhaustive: vec![(0, 9)], sampled_flips: 0, subs: 0, truncs: 0, exts: 0, all_subs: false };
+        let plan = Plan { exhaustive: vec![(0, 22)], sampled_flips: 0, subs: 0, truncs: 0, exts: 0, all_subs: false, truncs_at: vec![] };
         mutate_case(&mut s, &mut it, &mut rng, format!("begin enc {}", hex(&d)), &plan, true);
     }
     // ---- validating caches: histories of put / raw put / corrupt-backing-file / validated get
@@ -1165,6 +1419,6 @@ fn main() {
     it.exec(&mut s, &format!("big {}", SKIP_ABOVE + 1));
     s.case(Some("big"));
 
-    s.rule = "valid artifacts from the crates' builders (encoding tables with 1 KiB pages, archive indices with key sizes 7/9/16 and offset sizes 4/5/6, .lru files with 0–20 entries, update sections with 1–23 entries, local headers at five base offsets, segment header blocks, V1 responses plain/multipart/upper-case checksum) × single-bit flips (exhaustive over the protected region for artifacts ≤ 4 KiB in thorough; always exhaustive over .lru files, local headers, index footers and checksum fields), byte substitutions (0x00, 0xFF, +1, random; every value for local headers in thorough), truncations and insertions at protected-range boundaries; cache histories of put_with_validation / put_to_layer / overwrite-backing-file / get_with_validation / ContentAddressedCache put/corrupt/get; evaluations = mutated artifacts + cache histories; non-trivial = acceptor got past its length guards (any response except err:io / none) resp. history reached a hit or a validation error; distinct = canonical (kind, base prefix, request) text".into();
+    s.rule = "valid artifacts from the crates' builders (encoding tables with 1 KiB pages, archive indices with key sizes 7/9/16 and offset sizes 4/5/6, .lru files with 0–20 entries, update sections with 1–23 entries, local headers at five base offsets, segment header blocks, V1 responses plain/multipart/upper-case checksum, and V1 responses whose checksummed bytes themselves contain 1–4 occurrences of the text `Checksum: ` — free text / empty / 63, 64, 65 digits / upper case / all zero / a nested line valid for its own prefix, placed in a header value, at a line start, mid-line at the end of a row, mid-line followed by more text, in the MIME preamble / epilogue or glued to the real line, with line ends CRLF / LF / none: 9 fixed shapes + random ones) × single-bit flips (exhaustive over the protected region for artifacts ≤ 4 KiB in thorough; always exhaustive over .lru files, local headers, index footers, checksum fields, the 22 encoding header bytes and every `Checksum: ` occurrence of a V1 response), byte substitutions (0x00, 0xFF, +1, random; every value for local headers in thorough), truncations and insertions at protected-range boundaries (V1: cuts at the start / end of every `Checksum: ` occurrence and line); cache histories of put_with_validation / put_to_layer / overwrite-backing-file / get_with_validation / ContentAddressedCache put/corrupt/get; evaluations = mutated artifacts + cache histories; non-trivial = acceptor got past its length guards (any response except err:io / none) resp. history reached a hit or a validation error; distinct = canonical (kind, base prefix, request) text".into();
     s.finish();
 }
